@@ -85,6 +85,9 @@ class MergeExtractor(BaseExtractor):
                                             if cqt := extract_column_qualifier(
                                                 column_reference_optional
                                             ):
+                                                if j >= len(insert_columns):
+                                                    # more values than insert columns: no target column to link
+                                                    continue
                                                 src_col = Column(cqt.column)
                                                 src_col.parent = direct_source
                                                 holder.add_column_lineage(
